@@ -242,7 +242,17 @@ pub fn apply_rewrite(b: &Building, r: &Rewrite) -> Building {
             // first piece overshoots and the second compensates with the opposite sign (the overshoot is at most the
             // value itself: pieces hundreds of times larger than their sum would make the f32 sum of the service's
             // output a cancellation residue, and the auxiliary split with it - rounding, not layout)
-            let mixed = matches!(l.kind, Kind::Out { .. }) && (*cut2 & 1 == 1);
+            // (not when the lines of that system and service cancel exactly at some step - e.g. 0.03 and -0.03: pieces
+            // of other magnitudes would leave an f32 residue where the summed output is zero, and a step with zero output
+            // is where the auxiliary split is undefined, C06)
+            let cancels = match &l.kind {
+                Kind::Out { srv } => (0..cents.len()).any(|t| {
+                    cents[t] != 0
+                        && o.lines.iter().filter(|x| x.id == l.id && matches!(&x.kind, Kind::Out { srv: s2 } if s2 == srv)).map(|x| (x.vals[t] as f64 * 100.0).round() as i64).sum::<i64>() == 0
+                }),
+                _ => false,
+            };
+            let mixed = matches!(l.kind, Kind::Out { .. }) && (*cut2 & 1 == 1) && !cancels;
             // (zeros are left as zeros: pieces that cancel to zero would leave an f32 residue and a
             // step with zero output is where the auxiliary split is undefined, C06)
             let a: Vec<i64> = cents.iter().map(|c| if mixed && *c != 0 { *c + (frac(c.abs(), *cut1) + 1) * c.signum() } else { frac(*c, *cut1) }).collect();
